@@ -519,7 +519,8 @@ async fn main() -> Result<()> {
             source.path().to_path_buf(),
             destination.path().to_path_buf(),
             Duration::from_millis(500), // 500ms debounce
-        );
+        )
+        .with_json(cli.json);
 
         watch_mode.watch().await?;
         return Ok(()); // Watch mode handles its own output
